@@ -156,7 +156,7 @@ def structureElementDeclaration : P Sx := do
     <|> (do let si ← enumeratedSpecInitWithValue
             pure (match si.1 with
               | .inr id => sxEnumType id (some si.2)
-              | .inl vs => sxEnumVals vs none))
+              | .inl vs => sxEnumVals vs (some si.2)))
     <|> simpleSpecInitWithConstant
     <|> ambiguousSpecInit
   pure (.n "StructureElementDeclaration" [("name", name), ("init", init)])
